@@ -14,6 +14,7 @@ if commit_sub != '-':
 k = [e for e in k if not (e['property'] == prop and e.get('repro') == repro)]
 e = {"property": prop, "signature": sig, "status": status, "what": what, "repro": repro}
 if commit: e["commit"] = commit
+e["record"] = (f"fixed: property={prop} {commit} {what}" if status == "fixed" else f"known: property={prop} {what}")
 k.append(e)
 json.dump(k, open(path, 'w'), indent=2)
 print('ok', prop, sig, status, commit)
